@@ -25,7 +25,7 @@ func TestMain(m *testing.M) {
 		Property: "C03", Level: "exploration",
 		Rule: "rapid state machine over a block trie (LevelNodeDB(memory, base) with generated genesis content built by inserts and deletes, shared BlockCache) and up to 5 concurrently open child tries created exactly like the chain's CreateTxnMPT (plus grand-children): open, child insert/delete/get, merge (with or without committing the child's transaction cache), discard. " +
 			"Oracle: a model map per trie; after every step every trie other than the one operated on must present the same root and the same rendered pending change set (hash + full encoding of New/Old, deletes) as before, every non-stale trie must read (lookups + Iterate) exactly its model, an accepted merge makes the parent's root and content the child's, a merge of a stale child with a different start root must be rejected without effect, the block trie's root must resolve from base + its own pending New nodes re-keyed by the reference hasher, and the block's own node store read without any node cache must hold the same state. " +
-			"Non-trivial = at least two children overlapped in time and a discarded or stale child performed a delete after an earlier sibling had merged; distinct = distinct step list.",
+			"Merges go through MergeMPTChanges or the by-value entry point MergeChanges, the child's cache may be committed before the merge, cold readers (CloneMPT + full iteration) walk open tries, children insert nested-prefix triples; a medium-scale case merges a child with 50..120 operations into a block state of 60..160 keys. Non-trivial = at least two children overlapped in time and a discarded or stale child performed a delete after an earlier sibling had merged; distinct = distinct step list.",
 		Assumptions: []string{"a child whose parent moved on (stale) may fail its own operations; only the parent and non-stale siblings are protected", "children that were ever stale are discarded rather than merged when the parent's root happens to equal their start root again"},
 	})
 	ev.Main(m)
